@@ -33,7 +33,7 @@ manifest = {
         "guard": "cargo feature `verif` of the chitchat crate",
         "enable": "the harness depends on chitchat = { path = \"/repo/chitchat\", features = [\"verif\"] }",
         "baseline_off_cmd": "cd /repo && RUSTUP_TOOLCHAIN=1.88.0-x86_64-unknown-linux-gnu cargo test --workspace --no-fail-fast --offline",
-        "source_commits": ["4b55b57", "7fa8af0", "adb7d82"],
+        "source_commits": ["4b55b57", "7fa8af0", "adb7d82", "b450d71"],
         "add_only": True,
     },
     "engines": [{
